@@ -36,6 +36,20 @@ def M(root, ctcs=()):
     return (root, tuple(ctcs))
 
 
+def deep_equal(a, b):
+    """Structural equality of nested tuples without recursion (chains of hundreds of levels)."""
+    stack = [(a, b)]
+    while stack:
+        x, y = stack.pop()
+        if isinstance(x, tuple) and isinstance(y, tuple):
+            if len(x) != len(y):
+                return False
+            stack.extend(zip(x, y))
+        elif type(x) is not type(y) or x != y:
+            return False
+    return True
+
+
 def freeze(v):
     """JSON-like value -> hashable, type-strict form."""
     if isinstance(v, list):
@@ -193,6 +207,11 @@ def _val_str(v):
 
 
 def model_str(m):
+    n = size(m)
+    if n > 150:
+        import hashlib
+        return '<model of %d features, root %s, %d relations, digest %s>' % (
+            n, _nm(m[0][0]), len(relations(m)), hashlib.sha1(repr(m).encode('utf8', 'backslashreplace')).hexdigest()[:10])
     s = feature_str(m[0])
     if m[1]:
         s += ' ; ' + ' ; '.join('%s: %s' % (_nm(n), tree_str(t)) for n, t in m[1])
